@@ -72,7 +72,9 @@ class ResolveOuterVars(ast.NodeTransformer):
                 return res
             defined.update(has.intersection(undefined))
             undefined = [name for name in undefined if name not in has]
-        return [asty.Nonlocal(node, names=node.names)] if node.names else []
+        # (When every name turned out to be bound by a `let`, there's
+        # nothing to declare, but a body can't be left empty.)
+        return [asty.Nonlocal(node, names=node.names) if node.names else asty.Pass(node)]
 
 
 class NodeRef:
